@@ -277,6 +277,41 @@ def run(ctx):
                              % (argv_tail, k, bool(rt._should_regenerate(k)), want))
             ctx.count(('argv', tuple(argv_tail)), True)
         reset_class_state()
+        # ---------------- regeneration over an existing reference of the same size and modification time
+        # (files from an archive or a reproducible build): the reference must be rewritten, and then pass
+        for it in range(10 if ctx.quick else 150):
+            reset_class_state()
+            rt, Failed = make_rt(base)
+            d2 = os.path.join(base, 'same%d' % it)
+            os.makedirs(d2)
+            binary = rng.random() < 0.4
+            new = ('version 1.0.%d\nline two\n' % rng.randrange(10)).encode() if not binary else bytes([1, 2, rng.randrange(256), 4])
+            old = new[:-2] + bytes([new[-2] ^ 1]) + new[-1:]
+            ap, rp = os.path.join(d2, 'act.bin' if binary else 'act.txt'), os.path.join(d2, 'ref.bin' if binary else 'ref.txt')
+            with open(ap, 'wb') as f:
+                f.write(new)
+            with open(rp, 'wb') as f:
+                f.write(old)
+            stamp = 1500000000 + rng.randrange(1000)
+            os.utime(ap, (stamp, stamp))
+            os.utime(rp, (stamp, stamp))
+            case = {'scenario': 'same size and mtime', 'binary': binary, 'new': repr(new), 'old_reference': repr(old)}
+            ctx.count(repr(case) + str(it), True)
+            ctx.bump('same_stat_regeneration')
+            ReferenceTest.set_regeneration(None, True)
+            try:
+                (rt.assertBinaryFileCorrect if binary else rt.assertTextFileCorrect)(ap, rp)
+            except Exception as e:
+                ctx.fail(case, 'assertion in regeneration mode raised %s' % type(e).__name__)
+            if open(rp, 'rb').read() != new:
+                ctx.fail(case, 'regeneration was requested but the reference still holds %r' % open(rp, 'rb').read())
+            ReferenceTest.set_regeneration(None, False)
+            try:
+                (rt.assertBinaryFileCorrect if binary else rt.assertTextFileCorrect)(ap, rp)
+            except Failed:
+                ctx.fail(case, 'the assertion fails against the reference it has just been asked to regenerate')
+            shutil.rmtree(d2, ignore_errors=True)
+        reset_class_state()
         # ---------------- correspondence with the model (histories without frames)
         todo = [r for r in records if all(o is not None for o in r[2])]
         payloads = [([(n, c) for n, c in sorted(fs0.items())], ops) for (_, fs0, ops, _, _, _, _) in todo]
